@@ -134,6 +134,12 @@ func (bf *Filter) matches(data []byte) bool {
 		return false
 	}
 
+	// An empty filter matches everything; this also avoids a division by
+	// zero in hash (see bitcoind CVE-2013-5700).
+	if len(bf.msgFilterLoad.Filter) == 0 {
+		return true
+	}
+
 	// The bloom filter does not contain the data if any of the bit offsets
 	// which result from hashing the data using each independent hash
 	// function are not set.  The shifts and masks below are a faster
@@ -189,7 +195,7 @@ func (bf *Filter) MatchesOutPoint(outpoint *wire.OutPoint) bool {
 //
 // This function MUST be called with the filter lock held.
 func (bf *Filter) add(data []byte) {
-	if bf.msgFilterLoad == nil {
+	if bf.msgFilterLoad == nil || len(bf.msgFilterLoad.Filter) == 0 {
 		return
 	}
 
